@@ -15,10 +15,23 @@ func (s *shrinker) attempt(c TapeData) bool {
 	s.used++
 	canon, ok := s.try(c)
 	if ok {
-		s.best = canon
-		return true
+		// progress must be monotone: shorter tape, or same length with a smaller sum
+		if canon.Len() < s.best.Len() || (canon.Len() == s.best.Len() && tapeSum(canon) < tapeSum(s.best)) {
+			s.best = canon
+			return true
+		}
 	}
 	return false
+}
+
+func tapeSum(d TapeData) uint64 {
+	var t uint64
+	for _, s := range d.Streams {
+		for _, v := range s {
+			t += v
+		}
+	}
+	return t
 }
 
 func frameBounds(d TapeData, name string) [][2]int {
